@@ -256,7 +256,7 @@ type c12sWorld struct {
 
 	reqs        []*c12sReq
 	refused     []string
-	refusedSeq  []int // call-start stamps of refused pooled (proposal/read) calls
+	refusedSeq  []int // return stamps of refused pooled (proposal/read) calls
 	takenP      []pb.Entry
 	fate        []int // per taken entry: 0 none, 1 dropped, 2 committing, 3 committed, +4 applied
 	ccFate      []int // same for taken config changes
@@ -388,7 +388,10 @@ func (w *c12sWorld) clientBody(ci int, prog []string) func() {
 				if err != nil {
 					w.refused = append(w.refused, q.kind+":"+err.Error())
 					if op == "P" || op == "R" {
-						w.refusedSeq = append(w.refusedSeq, q.callStart)
+						// the moment the refused call RETURNED: it may have taken an object
+						// out of the pool at any point before that, also when the call
+						// itself began before that object was released
+						w.refusedSeq = append(w.refusedSeq, w.seq())
 					}
 					w.mu.Unlock()
 					continue
@@ -1174,6 +1177,9 @@ func TestVerifC12SSched(t *testing.T) {
 						finds, _ := w.judge(o)
 						for _, f := range finds {
 							res.Violate(f.key, f.desc+" | scenario: "+sc.Name+" | schedule: "+o.Schedule(), rp)
+						}
+						if c12sDebug {
+							fmt.Println("RUN LOG:\n  " + strings.Join(o.Log, "\n  "))
 						}
 					})
 				})
